@@ -526,6 +526,11 @@ func kRun(r *vk.Run, prop string, scenarios []kScenario, c09, c13 bool, rule str
 				k.do(a)
 				ids = append(ids, c.id(a))
 				r.Eval(1)
+				if k.probeMutated {
+					c.viol("data-race", "queue-modified-while-its-mutex-is-held/addSpaces-Push-vs-plotterQueue.Delete",
+						k.probeNote+": the plotter pushes (and polls Empty/Size) through the unlocked methods of the embedded priority queue while StopWS/RemoveWS/DeleteWS rebuild that queue under its mutex from API goroutines - concurrent modification of the heap (observed as a nil dereference in prque.Less / index out of range, killing the process)", ids[:len(ids)-1], ids[len(ids)-1])
+					k.probeMutated = false
+				}
 			}
 			c.drain(k, ids[:len(ids)-1], ids[len(ids)-1])
 			k.close()
@@ -644,6 +649,9 @@ func TestVerifC13(t *testing.T) {
 		alpha = append(alpha, kAction{Kind: "kstop", WS: -1})
 		scs = append(scs, kScenario{Name: "lockgates-" + init, Initial: init, ChanCap: 8, Budget: vk.Pick(r, 2, 3), Horizon: h + 8, Alphabet: alpha, LockGates: true})
 	}
+	// lock discipline of the plot queue (scripted, both tiers)
+	scs = append(scs, kScenario{Name: "probe-queue-lock", Initial: "RR", ChanCap: 1, Budget: 4, Horizon: 8,
+		Script: []kAction{{Kind: "gate", Name: "idle", WS: -1}, {Kind: "probe", Name: "queue-lock", WS: -1}}})
 	if r.Thorough() {
 		// the finding at the production constant: a plot is in progress, 1024 plot requests fill
 		// the channel, request 1025 blocks holding the lock, the finished plot cannot take it
